@@ -170,6 +170,8 @@ def shape(e, roles=None, depth=20):
                 return inner
             return inner
         cid = callee_id(e.t)
+        if cid == "mem::size_of" and e.t.get("callee_args"):
+            return "size_of<%s>" % short_ty(e.t["callee_args"][0])
         if nice(c) in ("Index::index", "IndexMut::index_mut") and len(e.args) == 2:
             return "%s[%s]" % (shape(e.args[0], roles, depth - 1), shape(e.args[1], roles, depth - 1))
         return "%s(%s)" % (cid, ",".join(shape(a, roles, depth - 1) for a in e.args))
